@@ -253,6 +253,13 @@ fn handle(req: &Value) -> Value {
             }).collect();
             json!({"lookups": lookups})
         }
+        "two_waiters" => {
+            // two async functions awaiting the same pending promise; resolving it must wake both, in order
+            let src = "let log = []; let res; const p = new Promise(r => { res = r; });\n\
+                async function w(n) { await p; log.push(n); }\n\
+                const a = w('A'); const b = w('B'); res(1); await a; await b; log.join('')";
+            run_program(src, Some("/main.ts"), 1_000_000)
+        }
         "number_to_string" => {
             let bits = u64::from_str_radix(req["bits"].as_str().unwrap_or("0"), 16).unwrap_or(0);
             json!({"out": tsrun::value::number_to_string(f64::from_bits(bits)).to_string()})
